@@ -66,6 +66,7 @@ SpecialIntTab == (NA :> ITEST) @@ ("0.5" :> 0) @@ ("0.25" :> 0) @@ ("1.5" :> 1) 
               @@ ("-0.5" :> 0) @@ ("2.46913578024690" :> 2) @@ ("2.4691357802469" :> 2) @@ ("12.3456789012345" :> 12)
 IsNum(t) == t \in DOMAIN StrIntTab \/ t \in DOMAIN SpecialIntTab
 IntOf(t) == IF t \in DOMAIN StrIntTab THEN StrIntTab[t] ELSE SpecialIntTab[t]
+NegToks == {"-1", "-1.23456789012345", "-1e+300", "-0.5", "-0.25"}     \* negative numbers of the vocabulary
 CommentToks == {HASH, "#a", "#b"}         \* words starting with '#'
 IsComment(t) == t \in CommentToks
 
@@ -951,7 +952,8 @@ R_MeshETurbo(L, md, s0) ==
       sC == RdI(L, md, sB, "ngridmask")
       sD == IF sC.ok /\ sC.o.ngridmask > 0 THEN RdVec(L, md, sC, "gridmask", "i", sC.o.ngrid) ELSE sC
       \* "(void) initFromGridByMatrix(...)": a grid that cannot be built (no node along an axis, absurd counts) is not noticed
-      badg == s5.ok /\ (nd < 1 \/ nd > 3 \/ \E d \in DOMAIN s5.o.nx : s5.o.nx[d] < 2 \/ s5.o.nx[d] > 10000)
+      badg == s5.ok /\ (nd < 1 \/ nd > 3 \/ (\E d \in DOMAIN s5.o.nx : s5.o.nx[d] < 2 \/ s5.o.nx[d] > 10000)
+                              \/ (\E d \in DOMAIN s5.o.dx : s5.o.dx[d] \in NegToks))      \* Grid::resetFromVector refuses dx < 0
       sE == IF sD.ok /\ badg THEN (IF md = "real" THEN Ev(sD, "badGrid") ELSE Fail(sD, "badCount")) ELSE sD
   IN Res(sE, [ndim |-> nd, nx |-> sE.o.nx, dx |-> sE.o.dx, x0 |-> sE.o.x0, rotmat |-> sE.o.rotmat, polar |-> sE.o.polar, mode |-> sE.o.mode,
               nmesh |-> sE.o.nmesh, ngrid |-> sE.o.ngrid])
@@ -1257,6 +1259,7 @@ PathCases == [k \in 1..12 |-> LET set == [container |-> ((k - 1) \div 6) = 1, pr
 (*   emptyline(k)  token k replaced by an empty line                          *)
 (*   wrongclass(t) class tag replaced by t                                    *)
 (*   dupline(l) / dropline(l)                                                 *)
+(*   tagonly       the first line only (ended by a newline)                   *)
 (* Tokens are numbered 1..N over the whole file (the tag is token 1).         *)
 
 NTok(L) == LET F[i \in 0..Len(L)] == IF i = 0 THEN 0 ELSE F[i-1] + Len(L[i]) IN F[Len(L)]
@@ -1278,12 +1281,13 @@ ApplyFault(L, ft) ==
          LET p == TokPos(L, ft.k)  ln == L[p[1]] IN
          SubSeq(L, 1, p[1] - 1) \o << SubSeq(ln, 1, p[2] - 1), <<>>, SubSeq(ln, p[2] + 1, Len(ln)) >> \o SubSeq(L, p[1] + 1, Len(L))
     [] ft.kind = "wrongclass" -> [L EXCEPT ![1] = <<ft.t>>]
+    [] ft.kind = "tagonly" -> <<L[1]>>
     [] ft.kind = "dupline"  -> SubSeq(L, 1, ft.k) \o <<L[ft.k]>> \o SubSeq(L, ft.k + 1, Len(L))
     [] ft.kind = "dropline" -> SubSeq(L, 1, ft.k - 1) \o SubSeq(L, ft.k + 1, Len(L))
 
 \* the faults of a file, numbered 1..NFaults(L): truncations, corruptions (8 replacement tokens per token; a replacement
 \* by the same token is the fault "noop"), empty lines, 2 wrong class tags, duplicated lines, dropped lines
-NFaults(L) == 10 * (NTok(L) - 1) + 2 + 2 * (Len(L) - 1)
+NFaults(L) == 10 * (NTok(L) - 1) + 2 + 2 * (Len(L) - 1) + 1
 FaultAt(L, c, j) ==
   LET n1 == NTok(L) - 1
       nl == Len(L) - 1
@@ -1297,7 +1301,8 @@ FaultAt(L, c, j) ==
      ELSE IF j = 10 * n1 + 1 THEN [kind |-> "wrongclass", k |-> 1, t |-> IF c = "Table" THEN "Db" ELSE "Table"]
      ELSE IF j = 10 * n1 + 2 THEN [kind |-> "wrongclass", k |-> 1, t |-> "abc"]
      ELSE IF j <= 10 * n1 + 2 + nl THEN [kind |-> "dupline", k |-> j - (10 * n1 + 2) + 1, t |-> ""]
-     ELSE [kind |-> "dropline", k |-> j - (10 * n1 + 2 + nl) + 1, t |-> ""]
+     ELSE IF j <= 10 * n1 + 2 + 2 * nl THEN [kind |-> "dropline", k |-> j - (10 * n1 + 2 + nl) + 1, t |-> ""]
+     ELSE [kind |-> "tagonly", k |-> 1, t |-> ""]                      \* the first line alone, with its end of line
 
 \* events of the transcribed reader that are memory-unsafe or unbounded in the real code
 UnsafeEvents == {"vecOverflow", "allocNegative", "allocHuge", "allocUnbounded", "loopUnbounded", "writeUnsized", "useAfterClear", "gridSizeMismatch", "badEnum", "badDims", "emptyPolyline", "emptyHermite", "badIndex", "badGrid", "badRuleNodes", "namesMismatch", "nameHash"}
